@@ -7,10 +7,12 @@ CHECKS = {
  'C17': dict(
     text='Every path of the real rotation_matrix and calcule_base is executed on fully symbolic inputs (z3 reals); each law of the '
          'statement is an SMT obligation per path, decided unsat (holds for all reals) or sat (replayed concretely).  No bound on magnitudes; '
-         'exact real arithmetic, so binary64 rounding is outside the claim.',
+         'exact real arithmetic, so binary64 rounding is outside the claim - except for one QF_FP kernel: the statements of calcule_base up to its collinearity '
+         'test are re-read from the source, translated to z3 Float64 terms (validated bit for bit against numpy) and the solver is asked for an exactly collinear '
+         'triple (0, lam d, d), d integral, that the test misses (this found defect D10).  The real function is also run on every accepted axis dtype.',
     note='Trusted: z3 (unsat answers), the SymX scalar/numpy-object-array semantics (validated on every run against the float code on random '
          'rationals), sqrt/cos/sin encodings (fresh variables with defining polynomial constraints).',
-    design='3/C17', technique=SYMX + '; let-abstraction of proven sub-results'),
+    design='3/C17 and 2.6', technique=SYMX + '; let-abstraction of proven sub-results; AST-to-QF_FP kernel (binary64) for the collinearity test'),
 }
 CHECKS['C19'] = dict(
     text='Real Residue.distance_to executed on symbolic points/residues and symbolic boxes (any positive orthorhombic edges; lower-triangular '
@@ -95,7 +97,8 @@ CHECKS['C13'] = dict(
 CHECKS['C14'] = dict(
     text='Real GroFile reader executed on a file model whose end-of-file is one symbolic integer: every byte-level truncation point of files written by the '
          'real writer (1..4 atoms quick, ..6 and 40 thorough; count declared/deferred; velocities) lies on an explored path; accepted paths must lie inside '
-         'the box line and return the complete records; coverage of 0..len proved by the solver; writer crash points = prefixes of the real write/seek log.',
+         'the box line and return the complete records; coverage of 0..len proved by the solver; writer crash points = prefixes of the real write/seek log; '
+         'byte-level truncation (symbolic truncation byte, one path per value) of real files on disk with LF / CRLF line ends, non-ASCII names and zero atoms.',
     note='Trusted: z3; the file model (readline/seek/tell on a prefix of the complete content), validated against the complete file on every run.',
     design='3/C14', technique='symbolic end-of-file (z3 Int) under the real reader; path-condition coverage query')
 CHECKS['C15'] = dict(
@@ -121,7 +124,8 @@ CHECKS['C06'] = dict(
     text='Glue: the real Alignment (setters, align_molecules, remove_hydrogens, bonds_distance, are_connected) on symbolic coordinates for both size orders and ties, hydrogen masks, '
          'restraint lists and deformation subsets, with the optimiser replaced by a recorder returning fresh symbolic coordinates: who is translated and by what, what the optimiser '
          'receives, where its result is written, caller molecules untouched - as SMT / term-identity obligations.  Step: one iteration of the real Monte-Carlo loop with symbolic '
-         'draws: translation and rotation proposals preserve all pairwise distances (rotation matrix proved orthogonal on the path).',
+         'draws: translation and rotation proposals preserve all pairwise distances (rotation matrix proved orthogonal on the path).  Stub validation: the symbolic '
+         'draws stand for numpy\'s global stream, so the package sources are scanned for any other entropy source (a hit is confirmed by two real runs from one seed).',
     note='Trusted: z3; the recorder contract (same shape); the single-atom move is decided in C07 and the loop bookkeeping in C09; bit-identical repeatability for a seed is outside the claim.',
     design='3/C06', technique=SYMX + '; contract stub for the optimiser + one-step invariant of the real loop')
 CHECKS['C09'] = dict(
